@@ -55,6 +55,34 @@ let parse_dump (f : string) : (string * int list) list =
 
 let removed_tok (l : entry list) = "R=" ^ String.concat "," (List.map (fun e -> field_of_str e.e_mb ^ "." ^ string_of_int (int_of_nat e.e_k)) l)
 
+
+(* ---- the run loop (Model/RetentionLoop.v) as the `start` and `asm12` cases drive it *)
+let enum_all (st : spec_store) = List.map fst st.counts
+let lstep period y e = lev_step cfg (z_of_int period) enum_all y e
+let settle_loop period y = settle cfg (z_of_int period) enum_all (nat_of_int 100000) y
+
+(* Start is entered at clock 0; the loop runs whenever it can; every full minute the timer fires;
+   after [cancel_after] seconds (None: never) shutdown is requested. *)
+let serve_loop (period : int) (st0 : spec_store) (cancel_after : int option) : lstate =
+  let y = ref (settle_loop period (linit (z_of_int period) (z_of_int 0) st0)) in
+  (match cancel_after with
+   | None -> ()
+   | Some secs ->
+       let rem = ref secs in
+       while !rem >= 60 do
+         y := settle_loop period (lstep period !y (LTick (n_of_int 60)));
+         rem := !rem - 60
+       done;
+       y := lstep period !y (LTick (n_of_int !rem));
+       y := settle_loop period (lstep period !y LCancelEv));
+  !y
+
+let parse_duration (s : string) : int =
+  let n = String.length s in
+  if n = 0 then 0 else
+  let v = int_of_string (String.sub s 0 (n - 1)) in
+  match s.[n - 1] with 'h' -> v * 3600 | 'm' -> v * 60 | _ -> v
+
 let () =
   Mlutil.iter_lines (fun line ->
     let (kind, ins, outs) = Mlutil.split_case line in
@@ -127,23 +155,42 @@ let () =
          | "PANIC" :: _ -> Mlutil.print_model ["none"; "ok"] "fail:panic"
          | _ -> Mlutil.print_model ["none"; "ok"] "fail:no-answer")
     | "start", [_store; period; cancel_ms; boxes] ->
+        (* the run-loop model (Model/RetentionLoop.v): clock in seconds, Start entered at 0, dates = -age *)
         let st0 = fill boxes in
         let cms = int_of_string cancel_ms in
-        (* what the select statements of Start see: the minute timer fires before a cancellation that comes later *)
-        let evs = if cms < 0 then [] else if cms >= 60000 then [LTimer; LCancel] else [LCancel] in
-        let (scans, returned) = start (z_of_int (int_of_string period)) evs in
-        (* a scan kicked off by the loop runs one minute after the deliveries: ages have grown by 60 s *)
-        let st1 = if int_of_nat scans = 0 then st0
-                  else scan cfg (z_of_int (60 - int_of_string period)) (List.map fst st0.counts) st0 in
+        let y = serve_loop (int_of_string period) st0 (if cms < 0 then None else Some (cms / 1000)) in
+        let returned = (y.l_mode = LExit) in
+        let st1 = y.l_sys.s_st in
         let model = [(if returned then "returned" else "BLOCKED"); dump st1] in
+        let scans = List.length y.l_starts in
         let verdict = match outs with
           | [res; d] ->
               if res <> "returned" then "fail:start-join-timeout"
               else if d <> dump st1 then
                 (if int_of_string period <= 0 then "fail:zero-period-deleted"
-                 else if int_of_nat scans = 0 then "fail:start-deleted" else "fail:start-scan-not-exact")
+                 else if scans = 0 then "fail:start-deleted" else "fail:start-scan-not-exact")
               else "ok"
           | _ -> "fail:no-answer" in
         Mlutil.print_model model verdict
-    | "asm12", _ -> Mlutil.asm_case outs
+    | "asm12", [period; n] ->
+        (* the assembled server (go/asmsys) served a pre-populated file store for T seconds: which messages
+           must still be there comes from the run-loop model *)
+        (match outs with
+         | ["ok"; s; a; tt] when String.length s >= 2 && String.sub s 0 2 = "S=" ->
+             let ages = List.map int_of_string (sp ',' (String.sub a 2 (String.length a - 2))) in
+             let secs = int_of_string (String.sub tt 2 (String.length tt - 2)) in
+             let p = parse_duration period in
+             let st0 = fst (List.fold_left (fun (st, i) age ->
+               (exec st (Add (str_of_raw (Printf.sprintf "box%d" (i mod 3)), z_of_int (- age), n_of_int i, N0)), i + 1)) (spec_init, 0) ages) in
+             let y = serve_loop p st0 (Some secs) in
+             let tags st = List.sort compare (List.map (fun e -> int_of_n e.e_msg.m_tag) st.live) in
+             let want = tags y.l_sys.s_st in
+             let model = ["ok"; "S=" ^ String.concat "," (List.map string_of_int want); a; tt] in
+             let got = (let b = String.sub s 2 (String.length s - 2) in if b = "" then [] else List.map int_of_string (sp ',' b)) in
+             (* oracle: nothing younger than the period (with the child's one-minute margin) may be missing; period <= 0: nothing at all *)
+             let missing_young = List.exists (fun (i, age) -> (p <= 0 || age < p - 60) && not (List.mem i got))
+                 (List.mapi (fun i age -> (i, age)) ages) in
+             ignore n;
+             Mlutil.print_model model (if missing_young then "fail:assembled-server-deleted-unexpired-mail" else "ok")
+         | _ -> Mlutil.asm_case outs)
     | _ -> Mlutil.print_model ["UNKNOWN-KIND"] "ok")
